@@ -5,7 +5,7 @@ overlays (self-validation variants) need no scratch copy.
 import ast
 import os
 from .report import AnalysisError
-from . import canon
+from . import canon, inline
 
 PKG_DIRS = ('elftools', 'scripts')
 
@@ -102,6 +102,7 @@ class Model(object):
             self.sources.update(overlay)
         self.trees = {}
         self.renamed = []       # [(mod, qual, {current: reference})] locals renamed by sa/canon.py
+        self.inlined = []       # [(mod, where, names)] new helpers / new locals expanded by sa/inline.py
         self.classes = {}       # name -> [ClassInfo]
         self.funcs = {}         # (mod, qual) -> FuncInfo
         self.by_name = {}       # bare function/method name -> [FuncInfo]
@@ -119,8 +120,30 @@ class Model(object):
             # alpha-renaming invariance: locals spelled differently from the reference table are aligned by binding
             # signature and renamed back in this in-memory tree (sa/canon.py)
             if rel.startswith('elftools/'):
-                canon.normalise(self.trees[rel])
-            canon.canonicalise(rel, self.trees[rel], self.renamed)
+                tree = self.trees[rel]
+                ref = canon.reference().get(rel)
+                if ref is not None and '__functions__' in ref:
+                    # N11: helpers the reference tree does not have are expanded at their call sites (sa/inline.py)
+                    n, names = inline.inline_new_helpers(tree, set(ref['__functions__']))
+                    if n:
+                        self.inlined.append((rel, 'helpers', names))
+                canon.normalise(tree)
+                canon.canonicalise(rel, tree, self.renamed)
+                if ref is not None:
+                    # N10: locals the reference function does not have are replaced by their definition where that is safe
+                    again = False
+                    for qual, fn in canon.outer_functions(tree):
+                        new = canon.new_locals(rel, qual, fn)
+                        if new:
+                            done = inline.inline_temps(fn, new)
+                            if done:
+                                again = True
+                                self.inlined.append((rel, qual, done))
+                    if again:
+                        canon.normalise(tree)
+                        canon.canonicalise(rel, tree, self.renamed)
+            else:
+                canon.canonicalise(rel, self.trees[rel], self.renamed)
         for rel, tree in self.trees.items():
             syms = self.mod_symbols.setdefault(rel, {})
             self._collect(rel, tree, '', None, syms, toplevel=True)
